@@ -109,7 +109,41 @@ pub fn prelude(g: Fmt) {
 /// run `job` on a thread with a 1 GiB stack (terms nested hundreds of levels deep recurse that deep in
 /// the library, in `Drop` and in the harness's own walks); None if the thread could not run or died
 pub fn on_big_stack<R: Send + 'static>(job: impl FnOnce() -> R + Send + 'static) -> Option<R> {
-    std::thread::Builder::new().stack_size(1 << 30).spawn(job).ok()?.join().ok()
+    // (the stack is reserved address space, touched only as deep as the recursion goes; where even the
+    // reservation is refused, smaller ones are tried)
+    let mut job = Some(job);
+    for size in [1usize << 30, 1 << 28, 1 << 26] {
+        let j = job.take()?;
+        let slot = std::sync::Arc::new(std::sync::Mutex::new(Some(j)));
+        let slot2 = slot.clone();
+        match std::thread::Builder::new().stack_size(size).spawn(move || {
+            let j = slot2.lock().ok().and_then(|mut g| g.take());
+            j.map(|j| j())
+        }) {
+            Ok(h) => return h.join().ok().flatten(),
+            Err(_) => {
+                // not started: take the job back and try a smaller stack
+                job = slot.lock().ok().and_then(|mut g| g.take());
+            }
+        }
+    }
+    BIG_STACK_REFUSED.fetch_add(1, std::sync::atomic::Ordering::Relaxed);
+    None
+}
+
+/// can this process start threads with a large stack at all?  (Checked once; where it cannot, the
+/// extreme-size families are skipped and the run says so under `inconclusive`.)
+pub fn big_stacks_available() -> bool {
+    static OK: std::sync::OnceLock<bool> = std::sync::OnceLock::new();
+    *OK.get_or_init(|| std::thread::Builder::new().stack_size(1 << 26).spawn(|| ()).map(|h| h.join().is_ok()).unwrap_or(false))
+}
+
+/// how often no large-stack thread could be started at all (then the case is skipped: inconclusive)
+pub static BIG_STACK_REFUSED: std::sync::atomic::AtomicU64 = std::sync::atomic::AtomicU64::new(0);
+
+/// was the last `None` of `on_big_stack` a refusal to start the thread (not a death of the thread)?
+pub fn big_stack_refusals() -> u64 {
+    BIG_STACK_REFUSED.load(std::sync::atomic::Ordering::Relaxed)
 }
 
 /// a term nested `depth` levels deep along one spine: negations, one-element sets, products,
@@ -146,6 +180,9 @@ pub fn wide_td(k: Kind, n: usize) -> TD {
 /// property's "any nesting depth / any number of components".  Labels rebuild the term in a replay.
 pub fn extreme_cases() -> Vec<(String, TD)> {
     let mut out = vec![];
+    if !big_stacks_available() {
+        return out;
+    }
     for depth in [129usize, 200, 257, 300] {
         for variant in [0usize, 1, 3] {
             out.push((format!("deep:{}:{}", depth, variant), deep_td(depth, variant)));
